@@ -187,7 +187,7 @@ def gen_data(r, tbl: Table, depth, probe, clsname=None, generic=False):
     tvars = ["T"] if generic else []
     for i in range(n):
         fname = r.choice(["a", "b", "c", "x", "y", "val", "f"]) + str(i)
-        if generic and r.random() < 0.6:
+        if generic and not seen_default and r.random() < 0.6:
             t = r.choice([("tvar", "T"), ("list", ("tvar", "T")), ("opt", ("tvar", "T"))])
         else:
             t = gen_type(r, tbl, depth - 1, probe)
@@ -709,14 +709,22 @@ def fill_defaults(r, tbl: Table):
     """generate the default values of fields (python sources) once the table is complete"""
     for d in tbl.decls:
         if d["kind"] in ("data", "nt"):
-            for f in d["fields"]:
+            for i, f in enumerate(d["fields"]):
                 if f["default"] == "gen":
                     v = gen_value(r, f["type"], tbl, False, 2)
                     src = val_src(v)
                     immutable = v[0] in ("none", "bool", "int", "float", "str", "lit", "enum") or \
-                        (v[0] == "leaf" and v[1] != "bytearray") or (v[0] == "seq" and v[1] in ("tuple", "frozenset", "str") and d["kind"] == "nt")
+                        (v[0] == "leaf" and v[1] != "bytearray")
                     if d["kind"] == "nt":
-                        f["default"] = ("val", src)
+                        if immutable:
+                            f["default"] = ("val", src)
+                        else:
+                            # build_json_schema renders NamedTuple defaults through a dataclass default,
+                            # which raises ValueError for unhashable values (C20's business): keep the
+                            # generator inside what schema building supports
+                            for g in d["fields"][:i + 1]:
+                                g["default"] = None
+                            continue
                     else:
                         f["default"] = ("val", src) if immutable else ("factory", src)
                     f["default_v"] = v
